@@ -1745,6 +1745,14 @@ namespace bloch::runtime {
             for (int q : obj->ownedQubits) {
                 ensureQubitExists(q, 0, 0);
                 m_sim.reset(q);
+                // A handle copied out of the object ('qubit h = o.q;', a method returning
+                // this.q) may outlive it. The qubit is reset either way, but its index is only
+                // recycled when nothing can name it any more: otherwise the stale handle and the
+                // next declaration would share one simulator qubit.
+                if (qubitStillNamed(q, obj)) {
+                    unmarkMeasured(q);
+                    continue;
+                }
                 releaseQubit(q);
             }
             obj->ownedQubits.clear();
@@ -2012,7 +2020,11 @@ namespace bloch::runtime {
             ret = asDeclared(std::move(ret),
                              typeInfoFromAst(method->decl->returnType.get(), subst));
         }
-        endFrame();
+        {
+            std::vector<Value> inFlight{ret};
+            PendingArgsGuard resultRoot(m_pendingArgs, &inFlight);
+            endFrame();
+        }
         m_hasReturn = prevReturn;
         m_currentClassCtx = prevClass;
         m_inStaticContext = prevStatic;
@@ -2054,7 +2066,13 @@ namespace bloch::runtime {
         Value ret = std::move(m_returnValue);
         m_returnValue = {};
         ret = asDeclared(std::move(ret), typeInfoFromAst(fn->returnType.get()));
-        endFrame();
+        {
+            // the result is in flight while the frame's locals die: keep it visible (a returned
+            // qubit handle must count as 'still named' when its owner is destroyed right here)
+            std::vector<Value> inFlight{ret};
+            PendingArgsGuard resultRoot(m_pendingArgs, &inFlight);
+            endFrame();
+        }
         m_hasReturn = prevReturn;
         m_inDestructor = prevDtor;
         m_inConstructor = prevCtor;
@@ -3673,6 +3691,42 @@ namespace bloch::runtime {
     void RuntimeEvaluator::markMeasured(int index) {
         if (index >= 0 && index < static_cast<int>(m_qubits.size()))
             m_qubits[index].measured = true;
+    }
+
+    bool RuntimeEvaluator::qubitStillNamed(int index, const Object* except) const {
+        auto names = [index](const Value& v) {
+            if (v.type == Value::Type::Qubit)
+                return v.qubit == index;
+            if (v.type == Value::Type::QubitArray)
+                return std::find(v.qubitArray.begin(), v.qubitArray.end(), index) !=
+                       v.qubitArray.end();
+            return false;
+        };
+        for (const auto& scope : m_env)
+            for (const auto& kv : scope)
+                if (names(kv.second.value))
+                    return true;
+        for (const auto& kv : m_classTable)
+            if (kv.second)
+                for (const auto& v : kv.second->staticStorage)
+                    if (names(v))
+                        return true;
+        if (names(m_returnValue))
+            return true;
+        for (const auto* pending : m_pendingArgs)
+            if (pending)
+                for (const auto& v : *pending)
+                    if (names(v))
+                        return true;
+        for (const auto& w : m_heap) {
+            auto other = w.lock();
+            if (!other || other.get() == except)
+                continue;
+            for (const auto& f : other->fields)
+                if (names(f))
+                    return true;
+        }
+        return false;
     }
 
     void RuntimeEvaluator::releaseQubit(int index) {
